@@ -2,7 +2,7 @@
    short type (CModel.ceil_pow2_8) for every bit length a CAN message can hold, and the signedness test on the type's NAME
    (CModel.starts_with_i, the root of the finding c-enum-name-i). *)
 From Coq Require Import String Ascii ZArith List Bool Lia.
-From FcpV Require Import Base.Bits Schema.Types Layout.Packed CanC.CModel CanC.CWriterLib gen.PyCanC.
+From FcpV Require Import Base.Bits Schema.Types Layout.Packed Layout.PackedProofs Py.BufferLib Dbc.DbcModel Dbc.DbcLib Dbc.DbcSrcProofs CanC.CModel CanC.CWriterLib gen.PyCanC.
 Import ListNotations.
 Local Open Scope Z_scope.
 
@@ -32,3 +32,157 @@ Qed.
 (* hence an enum named like that is taken for a signed type *)
 Example enum_named_i_is_signed : py_is_signed "ignition" = true /\ py_is_signed "Mode" = false.
 Proof. split; reflexivity. Qed.
+
+
+(* ---------- initialize_can_data: one message per CAN binding, in declaration order ---------- *)
+Section Init.
+Context {S : Type} (create : list piece -> pyres (S * Z)).
+
+Definition is_can (im : simpl) : bool := String.eqb (iprotocol im) "can".
+
+(* the message of one binding: None when the layout, create_can_signals or the id is missing (the generator then raises) *)
+Definition msg_spec (sc : schema) (im : simpl) : option (cmsg S) :=
+  match snd (generate true sc encoder_init im) with
+  | None => None
+  | Some ps =>
+      match create ps with
+      | PRaise _ => None
+      | POk (sigs, dlc) =>
+          match impl_int im "id" with
+          | None => None
+          | Some id => Some {| c_frame_id := id; c_name := iname im; c_dlc := dlc; c_signals := sigs;
+                               c_senders := [impl_str_default im "device" "global"]; c_period := impl_int_default im "period" (-1) |}
+          end
+      end
+  end.
+
+Fixpoint msgs_spec (sc : schema) (ims : list simpl) : option (list (cmsg S)) :=
+  match ims with
+  | [] => Some []
+  | im :: ims' =>
+      if negb (is_can im) then msgs_spec sc ims'
+      else match msg_spec sc im, msgs_spec sc ims' with Some m, Some ms => Some (m :: ms) | _, _ => None end
+  end.
+
+Lemma init_loop sc : forall ims (msgs : list (cmsg S)) (devs : list string) (e : encoder),
+  option_map (fun st : list (cmsg S) * list string * encoder => fst (fst st))
+    (dres_of (dfor (filter (fun i => String.eqb (iprotocol i) "can") ims) (msgs, devs, e)
+       (fun st extension =>
+          let '(messages, devices, encoder) := st in
+          match generate true sc encoder extension with
+          | (encoder, None) => DRaise
+          | (encoder, Some encoding) =>
+              dbind (dlift (create encoding)) (fun sd => let '(signals, dlc) := sd in
+              let frame_id := impl_int extension "id" in
+              match frame_id with
+              | None => DRaise
+              | Some frame_id =>
+                  let device_name := impl_str_default extension "device" "global" in
+                  let period := impl_int_default extension "period" (-1) in
+                  let devices := if negb (existsb (fun node => String.eqb node device_name) devices) then devices ++ [device_name] else devices in
+                  let messages := messages ++ [{| c_frame_id := frame_id; c_name := iname extension; c_dlc := dlc; c_signals := signals;
+                                                  c_senders := [device_name]; c_period := period |}] in
+                  DOk (messages, devices, encoder)
+              end)
+          end)))
+  = option_map (app msgs) (msgs_spec sc ims).
+Proof.
+  induction ims as [|im ims IH]; intros msgs devs e; [cbn; now rewrite app_nil_r|].
+  cbn [filter msgs_spec]. unfold is_can at 1. destruct (String.eqb (iprotocol im) "can") eqn:Ep; cbn [negb]; [|apply IH].
+  cbn [dfor]. cbv zeta. unfold msg_spec.
+  rewrite <- (generate_history_independent_lemma true sc e encoder_init im).
+  destruct (generate true sc e im) as [e' [ps|]]; cbn [snd]; [|reflexivity].
+  destruct (create ps) as [[sigs dlc]|ex]; cbn [dlift dbind]; [|reflexivity].
+  destruct (impl_int im "id") as [id|]; [|reflexivity].
+  cbn [dbind]. rewrite IH. destruct (msgs_spec sc ims) as [ms|]; cbn [option_map]; [|reflexivity].
+  now rewrite <- app_assoc.
+Qed.
+
+Lemma finish_init (m : dres (list (cmsg S) * list string * encoder)) :
+  option_map fst (dres_of (dbind m (fun st => let '(messages, devices, encoder) := st in DOk (messages, devices))))
+  = option_map (fun st : list (cmsg S) * list string * encoder => fst (fst st)) (dres_of m).
+Proof. destruct m as [[[a b] c]| |]; reflexivity. Qed.
+
+Theorem initialize_messages_are_the_bindings sc ims :
+  option_map fst (dres_of (py_initialize_can_data create sc ims)) = msgs_spec sc ims.
+Proof.
+  unfold py_initialize_can_data. cbv zeta. rewrite finish_init.
+  transitivity (option_map (app []) (msgs_spec sc ims)); [exact (init_loop sc ims [] _ encoder_init)|].
+  destruct (msgs_spec sc ims); reflexivity.
+Qed.
+End Init.
+
+(* ---------- map_messages_to_devices: each device gets its messages in order ---------- *)
+Definition get_list {A : Type} (d : string) (dm : list (string * list A)) : list A := match lookup d dm with Some l => l | None => [] end.
+
+Lemma setdefault_get {A : Type} (dm : list (string * list A)) k x d :
+  get_list d (setdefault_append dm k x) = if String.eqb k d then get_list d dm ++ [x] else get_list d dm.
+Proof.
+  unfold get_list. induction dm as [|[k' l] dm IH]; cbn [setdefault_append lookup].
+  - rewrite (String.eqb_sym d k). destruct (String.eqb k d); reflexivity.
+  - destruct (String.eqb_spec k' k) as [->|N]; cbn [lookup].
+    + rewrite (String.eqb_sym d k). destruct (String.eqb k d); reflexivity.
+    + destruct (String.eqb_spec d k') as [->|N2].
+      * destruct (String.eqb_spec k k') as [E|_]; [congruence|reflexivity].
+      * exact IH.
+Qed.
+
+Definition sent_by {S : Type} (d : string) (m : cmsg S) : bool := existsb (String.eqb d) (c_senders m).
+
+Lemma map_loop {S : Type} d : forall (msgs : list (cmsg S)) dm,
+  (forall m, In m msgs -> exists s, c_senders m = [s]) ->
+  get_list d (fold_left (fun dm msg => fold_left (fun dm sender => setdefault_append dm sender msg) (c_senders msg) dm) msgs dm)
+  = get_list d dm ++ filter (sent_by d) msgs.
+Proof.
+  induction msgs as [|m msgs IH]; intros dm H1; [cbn; now rewrite app_nil_r|].
+  cbn [fold_left filter]. destruct (H1 m (or_introl eq_refl)) as [s Hs].
+  rewrite IH by (intros m' Hm'; apply H1; now right).
+  unfold sent_by at 2. rewrite Hs. cbn [fold_left existsb]. rewrite setdefault_get, orb_false_r, (String.eqb_sym d s).
+  destruct (String.eqb s d); [now rewrite <- app_assoc|reflexivity].
+Qed.
+
+Theorem device_messages_in_order {S : Type} (msgs : list (cmsg S)) d :
+  (forall m, In m msgs -> exists s, c_senders m = [s]) ->
+  get_list d (py_map_messages_to_devices msgs) = filter (sent_by d) msgs.
+Proof. intros H. unfold py_map_messages_to_devices. cbv zeta. now rewrite map_loop. Qed.
+
+(* what the scheduler of device d is generated for: the periods of that device's CAN bindings, in declaration order, -1 when none is given,
+   "global" when no device is given *)
+Lemma msgs_spec_one_sender {S : Type} (create : list piece -> pyres (S * Z)) sc : forall ims msgs,
+  msgs_spec create sc ims = Some msgs -> forall m, In m msgs -> exists s, c_senders m = [s].
+Proof.
+  induction ims as [|im ims IH]; intros msgs H m Hm; cbn [msgs_spec] in H.
+  - inversion H; subst. contradiction.
+  - destruct (negb (is_can im)); [eauto|].
+    destruct (msg_spec create sc im) as [m0|] eqn:E0; [|discriminate]. destruct (msgs_spec create sc ims) as [ms|] eqn:E1; [|discriminate].
+    inversion H; subst. destruct Hm as [<-|Hm]; [|eauto].
+    unfold msg_spec in E0. destruct (snd (generate true sc encoder_init im)); [|discriminate].
+    destruct (create l) as [[sg dl]|]; [|discriminate]. destruct (impl_int im "id"); [|discriminate]. inversion E0; subst. eexists. reflexivity.
+Qed.
+
+Lemma msgs_spec_periods {S : Type} (create : list piece -> pyres (S * Z)) sc d : forall ims msgs,
+  msgs_spec create sc ims = Some msgs ->
+  map c_period (filter (sent_by d) msgs)
+  = map (fun im => impl_int_default im "period" (-1))
+        (filter (fun im => is_can im && String.eqb d (impl_str_default im "device" "global")) ims).
+Proof.
+  induction ims as [|im ims IH]; intros msgs H; cbn [msgs_spec] in H.
+  - inversion H; subst. reflexivity.
+  - cbn [filter]. destruct (is_can im) eqn:Ec; cbn [negb andb] in *; [|eauto].
+    destruct (msg_spec create sc im) as [m0|] eqn:E0; [|discriminate]. destruct (msgs_spec create sc ims) as [ms|] eqn:E1; [|discriminate].
+    inversion H; subst. cbn [filter]. unfold msg_spec in E0. destruct (snd (generate true sc encoder_init im)); [|discriminate].
+    destruct (create l) as [[sg dl]|]; [|discriminate]. destruct (impl_int im "id"); [|discriminate]. inversion E0; subst.
+    unfold sent_by at 1. cbn [c_senders existsb]. rewrite orb_false_r.
+    destruct (String.eqb d (impl_str_default im "device" "global")); cbn [map c_period]; [f_equal|]; now apply IH.
+Qed.
+
+Theorem scheduler_periods_are_the_bindings {S : Type} (create : list piece -> pyres (S * Z)) sc ims d msgs devs :
+  dres_of (py_initialize_can_data create sc ims) = Some (msgs, devs) ->
+  map c_period (get_list d (py_map_messages_to_devices msgs))
+  = map (fun im => impl_int_default im "period" (-1))
+        (filter (fun im => is_can im && String.eqb d (impl_str_default im "device" "global")) ims).
+Proof.
+  intros H. pose proof (initialize_messages_are_the_bindings create sc ims) as Hi. rewrite H in Hi. cbn [option_map fst] in Hi. symmetry in Hi.
+  rewrite device_messages_in_order by (eapply msgs_spec_one_sender; exact Hi).
+  now apply (msgs_spec_periods create sc d ims).
+Qed.
